@@ -92,6 +92,18 @@ def run_case(case, seed):
     if r.fails:
         return r
     pts = [np.array(p, dtype=float) for p in itertools.product(GRID1, repeat=dim)]
+    # special points: zero, +-1, and the parameter-derived ones (domain end points, mean) in the function's own coordinate
+    special = [0.0, 1.0, -1.0]
+    if fam == 'Legendre':
+        special += [case['par']['domain'], -case['par']['domain']]
+    if fam in ('Gauss', 'PeriodicGauss'):
+        special += [case['par']['mean']]
+    if fam == 'Bspline':
+        special = [0.15, 1.0, -1.0]          # knots are excluded for splines (one-sided derivatives)
+        special = [v for v in special if all(abs(v - kn) > 1e-3 for kn in case['par']['knots'])]
+    for v in special:
+        q_ = np.array([0.37 - 0.2 * k for k in range(dim)], dtype=float); q_[idx] = v
+        pts.append(q_)
     analytic = fam not in ('Bspline', 'Indicator')
     no_d1 = fam == 'Indicator'
     no_d2 = fam in ('Indicator', 'PeriodicGauss', 'Bspline')
@@ -174,6 +186,22 @@ def run_case(case, seed):
                 H = np.asarray(f.hessian(p), dtype=float)
                 want = np.array([[f.partial2(p, k, l) for l in range(dim)] for k in range(dim)], dtype=float)
                 r.true(key + ':hessian', H.shape == (dim, dim) and np.allclose(H, want, rtol=1e-14, atol=0), 'hessian vs partial2')
+    # points given with an integer dtype (arrays and plain lists): derivatives are real numbers all the same
+    if not no_d1:
+        for ip in ([1] * dim, [2, -1, 3][:dim], [0] * dim):
+            for as_list in (False, True):
+                pt = list(ip) if as_list else np.array(ip, dtype=np.int64)
+                pf = np.array(ip, dtype=float)
+                if fam == 'Bspline' and any(abs(pf[idx] - kn) < 1e-9 for kn in case['par']['knots']):
+                    continue
+                with r.op(key + ':int-point:call'):
+                    g = np.asarray(f.gradient(pt), dtype=float); gw = np.asarray(f.gradient(pf), dtype=float)
+                    r.true(key + ':int-point:gradient', g.shape == gw.shape and np.allclose(g, gw, rtol=1e-13, atol=1e-13), 'gradient at %s: %s vs %s at the float point' % (ip, g, gw))
+                    r.true(key + ':int-point:partial', abs(f.partial(pt, idx) - f.partial(pf, idx)) <= 1e-13 * max(1, abs(f.partial(pf, idx))))
+                    if not no_d2:
+                        H = np.asarray(f.hessian(pt), dtype=float); Hw = np.asarray(f.hessian(pf), dtype=float)
+                        r.true(key + ':int-point:hessian', H.shape == Hw.shape and np.allclose(H, Hw, rtol=1e-13, atol=1e-13))
+                    r.true(key + ':int-point:value', abs(float(f(pt)) - float(f(pf))) <= 1e-13 * max(1, abs(float(f(pf)))))
     # array evaluation of the derivatives where they are array-valued
     if not no_d1:
         with r.op(key + ':partial:array-call'):
